@@ -558,11 +558,16 @@ def compile_program(src):
     return inner[0], ('lam' if isinstance(tree, ast.Lambda) else 'gen')
 
 
+CACHE_STATS = {'same': 0, 'different': 0}
+
+
 def decompile_real(code):
+    """the real entry point, through its cache (utils.get_codeobject_id pins the code object, so the key cannot be reused)"""
     from pony.orm import decompiling
-    decompiling.ast_cache.clear()
     try:
         a, names, cells = decompiling.decompile(code)
+        a2 = decompiling.decompile(code)[0]
+        CACHE_STATS['same' if a2 is a else 'different'] += 1
         return a, None
     except Exception as e:
         return None, type(e).__name__
@@ -666,6 +671,57 @@ def request_of(p):
     return {'op': 'check', 'code': p['model_code'], 'ast': p['model_ast']}
 
 
+def values_of(e, names, cap=24):
+    """tags of the values a model expression (JSON of AstModel) may evaluate to (operands of and/or/if-else are alternatives)"""
+    k = e[0]
+    if k == 'atom': return [('atom', names[e[1]])]
+    if k == 'bool': return [e[1]]
+    if k == 'none': return [None]
+    if k == 'not': return [True, False]
+    if k == 'boolop': return [v for x in e[2] for v in values_of(x, names, cap)][:cap]
+    if k == 'ife': return (values_of(e[2], names, cap) + values_of(e[3], names, cap))[:cap]
+    if k == 'cmp':
+        out = []; left = values_of(e[1], names, cap)
+        for op, arg, r in e[2]:
+            right = values_of(r, names, cap)
+            if op == 'named': out += [('app', arg, (l, x)) for l in left for x in right]
+            else: out += [True, False]
+            left = right
+        return out[:cap]
+    if k == 'app':
+        combos = [()]
+        for a in e[2]:
+            combos = [c + (v,) for c in combos for v in values_of(a, names, cap)][:cap]
+        return [('app', e[1], c) for c in combos]
+    return []
+
+
+def none_operands(e, names, acc):
+    """tags of the operands of `is None` / `is not None` anywhere in a model expression / top (JSON of AstModel)"""
+    if not isinstance(e, list): return acc
+    if e and e[0] == 'cmp' and len(e) == 3:
+        left = e[1]
+        for link in e[2]:
+            op, arg, r = link
+            if op == 'is' and r == ['none']: acc.update(t for t in values_of(left, names) if isinstance(t, tuple))
+            left = r
+    for c in e:
+        none_operands(c, names, acc)
+    return acc
+
+
+def source_model(src, kind):
+    """the model expression of the ORIGINAL source text (used only to find the operands of `is None`)"""
+    atoms = Atoms(); atoms('.0')
+    try:
+        tree = ast.parse(src.split('  [nested')[0], mode='eval').body
+        if isinstance(tree, ast.Lambda): tree = tree.body; kind = 'lam'
+        m = AstModel(atoms).top(tree, kind)
+        return m, atoms.names
+    except Exception:
+        return None, atoms.names
+
+
 def judge(p, reply, limit=256):
     """model validation + property oracle for one program -> dict(status=..., divergence=..., violation=...)"""
     res = {'src': p['src'], 'check': reply.get('check'), 'status': None, 'divergence': None, 'violation': None, 'incomplete': False,
@@ -674,7 +730,11 @@ def judge(p, reply, limit=256):
     tree = reply.get('code_tree')
     sub = loop_item_names(code)
     nonec = set()
-    for t in (tree_queries(tree, names, set()) if tree else ()):
+    cands = set(tree_queries(tree, names, set())) if tree else set()
+    if p['model_ast'] is not None: none_operands(p['model_ast'], names, cands)
+    sm, snames = source_model(p['src'], kind)
+    if sm is not None: none_operands(sm, snames, cands)
+    for t in cands:
         try: nonec.add(subst_items(t, sub or {}))
         except SkipValidation: pass
     validate = tree is not None and not reply.get('code_stuck')
@@ -1080,6 +1140,23 @@ def shrink_prog(pr):
             if j is not None:
                 cur, curj, changed = cand, j, True
                 break
+    # generalise: pairwise distinct atoms (first every leaf, then only the free names) if the failure survives
+    if 'lam' not in cur:
+        bound = set()
+        for c in cur['clauses']: bound.update(t.strip() for t in c['target'].split(','))
+        for keep in (set(), bound | {'U'}):
+            names = iter(ATOMS)
+            def gen(e):
+                if e[0] == 'a': return e if e[1] in keep else ('a', next(names))
+                if e[0] == 'lit': return e
+                return (e[0],) + tuple(gen(c) for c in e[1:])
+            cand = {'elt': gen(cur['elt']), 'clauses': [{'target': c['target'], 'iter': None if c['iter'] is None else gen(c['iter']),
+                                                        'conds': [gen(x) for x in c['conds']]} for c in cur['clauses']]}
+            if cand == cur: break
+            j = violates_src(render_prog(cand))
+            if j is not None:
+                cur, curj = cand, j
+                break
     return cur, curj
 
 
@@ -1113,6 +1190,11 @@ WITNESSES = [   # DESIGN section 8 row 2 and the shapes found while building thi
     ('cond', ('or', ('ife', ('a', 'a'), ('a', 'b'), ('a', 'c')), ('a', 'd'))),
     ('elt', ('and', ('a', 'a'), ('ife', ('a', 'c'), ('a', 'b'), ('a', 'd')))),
     ('elt', ('ife', ('or', ('a', 'a'), ('not', ('a', 'b'))), ('a', 'c'), ('a', 'd'))),
+    ('elt', ('ife', ('or', ('not', ('a', 'a')), ('a', 'b')), ('a', 'c'), ('a', 'd'))),
+    ('elt', ('ife', ('and', ('not', ('a', 'a')), ('a', 'b')), ('a', 'c'), ('a', 'd'))),
+    ('elt', ('ife', ('not', ('or', ('a', 'a'), ('a', 'b'))), ('a', 'c'), ('a', 'd'))),
+    ('cond', ('not', ('and', ('ife', ('a', 'a'), ('a', 'b'), ('a', 'c')), ('a', 'd')))),
+    ('cond', ('ife', ('a', 'a'), ('a', 'b'), ('ife', ('a', 'c'), ('a', 'd'), ('a', 'e')))),
 ]
 
 
@@ -1202,8 +1284,11 @@ def run_chunk(args):
                 out['violations'].append({'key': key, 'src': src, 'minimal': msrc, 'decompiled': mj['decompiled'], 'assign': mj['violation']['assign'],
                                           'original_outcome': mj['violation']['original'], 'decompiled_outcome': mj['violation']['decompiled']})
         if len(out['samples']) < 2: out['samples'].append({'src': src, 'status': j['status'], 'decompiled': j['decompiled']})
-        if j['status'].startswith(('checker-incomplete', 'unsupported-by-checker', 'decompiled-ast-not-compilable')) and len(out['examples']) < 3:
+        if j['status'].startswith(('checker-incomplete', 'unsupported-by-checker', 'decompiled-ast-not-compilable')) and len([x for x in out['examples'] if x['status'] == j['status']]) < 2:
             out['examples'].append({'src': src, 'status': j['status'], 'decompiled': j['decompiled'], 'why': p['ast_unsupported'] or j.get('recompile_error')})
+    count('ast-cache:second-decompile-returns-the-same-tree', CACHE_STATS['same']); CACHE_STATS['same'] = 0
+    if CACHE_STATS['different']:
+        out['errors'].append('decompile() returned a different tree for the same code object on the second call (%d times)' % CACHE_STATS['different']); CACHE_STATS['different'] = 0
     return out
 
 
@@ -1218,11 +1303,13 @@ def report(ctx, results):
         for k, v in res['counts'].items(): ctx.count(k, v)
         for e in res['errors']: ctx.count('harness-error'); ctx.note(e[:300])
         for s in res['samples']: ctx.case(s, kind='program')
-        ex = ctx.extra.setdefault('examples_not_proved', [])
-        if len(ex) < 12: ex.extend(res['examples'][:2])
+        for x in res['examples']:
+            ex = ctx.extra.setdefault('examples_' + x['status'].split(':')[0], [])
+            if len(ex) < 8: ex.append(x)
         for d in res['divergences']:
             ctx.divergence('the bytecode model (decision tree of symRun) and CPython disagree on the outcome of the code object', d['src'], model=d['model'], impl={'real': d['real'], 'assign': d['assign']})
         for v in res['violations']:
+            ctx.extra.setdefault('violation_keys', {}).setdefault(v['key'], '%s  ==>  %s' % (v['minimal'], v['decompiled']))
             ctx.violation('decompile() returned an expression whose meaning differs from the code: %s decompiles to %s' % (v['minimal'], v['decompiled']),
                           {'src': v['src'], 'minimal': v['minimal'], 'decompiled': v['decompiled'], 'environment': v['assign']},
                           observed=v['decompiled_outcome'], expected=v['original_outcome'], key=v['key'])
